@@ -9,6 +9,10 @@ package base
 // nfields: number of fields of the records this allocator hands out (= schema.maxFields at construction; ghost because
 // the value is captured in the pool's New closure)
 //@ ghost field LogAllocator.nfields int
+// raw: the record's own copy of the input line (ghost; every field value is a view into it)
+//@ ghost field LogRecord.raw string
+// lastraw: the copy made by the most recent NewRecord call (ghost; lets a caller speak about a record it dropped)
+//@ ghost var lastraw string
 //@ pure func poolnf(p *sync.Pool) int
 
 // clean(r): a record as it sits in the pool — nothing of a previous record is left (C12)
@@ -33,8 +37,10 @@ package base
 
 //@ func (alloc *LogAllocator) NewRecord(input []byte) (*LogRecord, util.MutableString)
 //@   requires allocok(alloc) && len(input) < 2147483648
-//@   modifies LogRecord._refCount, LogRecord._backbuf, mem(byte)
-//@   ensures  result.0 != nil && len(result.0.Fields) == alloc.nfields
+//@   modifies LogRecord._refCount, LogRecord._backbuf, LogRecord.raw, lastraw, mem(byte)
+//@   ghostset result.0.raw := result.1
+//@   ghostset lastraw := result.1
+//@   ensures  result.0 != nil && len(result.0.Fields) == alloc.nfields && result.0.raw === result.1 && lastraw === result.1
 //@   ensures[fields-empty] forall i int :: 0 <= i && i < len(result.0.Fields) ==> len(result.0.Fields[i]) == 0
 //@   ensures  result.0.RawLength == 0 && timezero(result.0.Timestamp) && result.0._refCount == alloc.initialRefCount
 //@   ensures  result.0._backbuf != nil ==> exists k int :: 0 <= k && k < 32 && len(*result.0._backbuf) == util.pow2(k)
